@@ -218,7 +218,21 @@ class Class:
 class _Canon(ast.NodeTransformer):
     """Behaviour-preserving canonicalisation applied to every parsed module so
     that rules see one idiom instead of several: `x = x + c` / `x = x - c`
-    become `x += c` / `x -= c`."""
+    become `x += c` / `x -= c`; `with suppress(E...): body` (contextlib) becomes
+    `try: body except (E...): pass`."""
+
+    def visit_With(self, node):
+        self.generic_visit(node)
+        if len(node.items) == 1 and node.items[0].optional_vars is None:
+            ce = node.items[0].context_expr
+            if isinstance(ce, ast.Call) and not ce.keywords and ce.args and (
+                    (isinstance(ce.func, ast.Name) and ce.func.id == "suppress")
+                    or (isinstance(ce.func, ast.Attribute) and ce.func.attr == "suppress" and isinstance(ce.func.value, ast.Name) and ce.func.value.id == "contextlib")):
+                typ = ce.args[0] if len(ce.args) == 1 else ast.Tuple(elts=list(ce.args), ctx=ast.Load())
+                h = ast.ExceptHandler(type=typ, name=None, body=[ast.copy_location(ast.Pass(), node)])
+                new = ast.Try(body=node.body, handlers=[ast.copy_location(h, node)], orelse=[], finalbody=[])
+                return ast.copy_location(new, node)
+        return node
 
     def visit_Assign(self, node):
         self.generic_visit(node)
